@@ -1,9 +1,503 @@
-import Oracle.Proto
-namespace Oracle.C19
+/-
+  Oracle.C19 — expected results for the C19 harness lines, computed by the
+  definitions of Spec.StrLib / Spec.TabLib (the ones Props/C19 is about) and,
+  for the position arithmetic of sub/byte/find, by Model.StrLib over the
+  REGENERATED StringNormPos/maxpos/minpos.
 
-/-- placeholder: the oracle driver for C19 is not built yet -/
+  Input lines (everything after ` = ` is what golua did and is ignored except by `sort`):
+    S  <fn> <arg>...                      = <outcome>
+    SL rep <arg>...                       = <outcome>        (run under a memory limit)
+    T  <fn> <tab> [<tab2>] n=<#t> [m=<#u>] <arg>...  = <outcome> ; <own>;<back> [; <own2>;<back2>]
+  Output, one line per input line:
+    = <expected outcome>[ | <alternative>]...     to be compared with the observed text after ` = `
+    ! ok | ! bad <reason>                          verdict of a relation check (sort)
+    ?                                              not decided by the manual / not modelled
+    bad-line
+  Second column for find: `~ <what Model.StrLib (mirror of matching.go) predicts>` appended after a tab.
+-/
+import Oracle.Proto
+import GoluaVerif.Spec.Num
+import GoluaVerif.Spec.StrLib
+import GoluaVerif.Spec.TabLib
+import GoluaVerif.Model.StrLib
+namespace Oracle.C19
+open GoluaVerif GoluaVerif.Spec Oracle
+open GoluaVerif.Spec.TabLib (Val Err Map MTab Handler mstore)
+
+abbrev Bytes := List UInt8
+
+/-! ### values -/
+
+def otherNames : List String := ["table", "function", "userdata", "thread"]
+
+/-- values the table library only stores and moves keep their identity in the tag:
+    floats as `4·bits + 1`, other types as `4·(index of the type name) + 2` -/
+def toVal : V → Val
+  | .nil => .nil
+  | .bool b => .bool b
+  | .int n => .int n.toInt
+  | .flt b => .other (4 * b.toNat + 1)
+  | .str s => .str s.data.toList
+  | .other t => .other (4 * (otherNames.idxOf t) + 2)
+
+def hexBytes (b : Bytes) : String := b.foldl (fun s x => s ++ hexOfNat x.toNat 2) ""
+
+def showVal : Val → String
+  | .nil => "n"
+  | .bool true => "t"
+  | .bool false => "F"
+  | .int i => "i" ++ toString i
+  | .str s => "s" ++ hexBytes s
+  | .other t =>
+    if t % 4 == 1 then "f" ++ hexOfNat (t / 4) 16
+    else "o" ++ (otherNames[t / 4]?).getD "?"
+
+/-- an argument token: a value, or a reference to table 1 / table 2 -/
+inductive Arg where
+  | v (x : V)
+  | t1
+  | t2
+
+def Arg.parse (s : String) : Option Arg :=
+  if s == "T" then some .t1 else if s == "U" then some .t2 else (V.parse s).map .v
+
+inductive Conv (α : Type) where
+  | ok (a : α)
+  | err          -- the manual prescribes an error (wrong type / no integer representation)
+  | open_        -- left open here (explicit nil for an optional argument, number where a string is expected, exotic numeral)
+
+def decimal? (s : Bytes) : Option Int :=
+  let str := String.ofList (s.map fun b => Char.ofNat b.toNat)
+  let digits := if str.startsWith "-" then (str.drop 1).toString else str
+  if digits.length > 0 && digits.length ≤ 18 && digits.all Char.isDigit then str.toInt? else none
+
+/-- `luaL_checkinteger` -/
+def argInt : Option Arg → Conv Int
+  | none => .err
+  | some (.v (.int n)) => .ok n.toInt
+  | some (.v (.flt b)) => match Num.floatToInt? (F64.ofBits b) with
+    | some n => .ok n.toInt
+    | none => .err
+  | some (.v (.str s)) => match decimal? s.data.toList with
+    | some n => .ok n
+    | none => if s.data.toList.any (fun b => (48 ≤ b && b ≤ 57)) then .open_ else .err
+  | some _ => .err
+
+/-- `luaL_optinteger`; explicit nil is accepted by C Lua, golua rejects it: left open -/
+def argOptInt (a : Option Arg) (d : Int) : Conv Int :=
+  match a with
+  | none => .ok d
+  | some (.v .nil) => .open_
+  | a => argInt a
+
+/-- `luaL_checklstring`; numbers are converted by C Lua (format of floats unspecified): left open -/
+def argStr : Option Arg → Conv Bytes
+  | none => .err
+  | some (.v (.str s)) => .ok s.data.toList
+  | some (.v (.int _)) => .open_
+  | some (.v (.flt _)) => .open_
+  | some _ => .err
+
+def argOptStr (a : Option Arg) (d : Bytes) : Conv Bytes :=
+  match a with
+  | none => .ok d
+  | some (.v .nil) => .open_
+  | a => argStr a
+
+def okVals (vs : List String) : String := "= " ++ " ".intercalate ("ok" :: vs)
+def okStr (b : Bytes) : String := okVals ["s" ++ hexBytes b]
+
+/-! ### string functions -/
+
+def toI64 (i : Int) : I64 := BitVec.ofInt 64 i
+
+def truthy : Option Arg → Bool
+  | none => false
+  | some (.v .nil) => false
+  | some (.v (.bool false)) => false
+  | some _ => true
+
+def hasSpecial (p : Bytes) : Bool :=
+  p.any fun b => "^$*+?.([%-".toList.any fun c => c.toNat == b.toNat
+
+def strFn (limited : Bool) (fn : String) (a : Array Arg) : String :=
+  let arg (i : Nat) : Option Arg := a[i]?
+  match fn with
+  | "len" => match argStr (arg 0) with
+    | .ok s => okVals ["i" ++ toString (StrLib.len s)]
+    | .err => "= err" | .open_ => "?"
+  | "reverse" => match argStr (arg 0) with
+    | .ok s => okStr (StrLib.reverse s)
+    | .err => "= err" | .open_ => "?"
+  | "upper" => match argStr (arg 0) with
+    | .ok s => okStr (StrLib.upper s)
+    | .err => "= err" | .open_ => "?"
+  | "lower" => match argStr (arg 0) with
+    | .ok s => okStr (StrLib.lower s)
+    | .err => "= err" | .open_ => "?"
+  | "sub" => match argStr (arg 0), argInt (arg 1), argOptInt (arg 2) (-1) with
+    | .ok s, .ok i, .ok j =>
+      let spec := StrLib.sub s i j
+      -- level B: the mirror of stringlib.go over the regenerated leaf functions must agree (Props.C19.gosub_eq_spec)
+      let model := Model.StrLib.goSub s (toI64 i) (toI64 j)
+      if spec == model then okStr spec else okStr spec ++ "\t~ " ++ okStr model
+    | .err, _, _ | _, .err, _ | _, _, .err => "= err"
+    | _, _, _ => "?"
+  | "byte" => match argStr (arg 0), argOptInt (arg 1) 1 with
+    | .ok s, .ok i =>
+      let j : Conv (Option Int) := match arg 2 with
+        | none => .ok none
+        | some (.v .nil) => .open_
+        | x => match argInt x with | .ok j => .ok (some j) | .err => .err | .open_ => .open_
+      match j with
+      | .ok j =>
+        let spec := StrLib.byte s i j
+        let model := Model.StrLib.goByte s (toI64 i) (j.map toI64)
+        let out := okVals (spec.map fun c => "i" ++ toString c)
+        if spec == model then out else out ++ "\t~ " ++ okVals (model.map fun c => "i" ++ toString c)
+      | .err => "= err"
+      | .open_ => "?"
+    | .err, _ | _, .err => "= err"
+    | _, _ => "?"
+  | "char" =>
+    let cs := a.toList.map fun x => argInt (some x)
+    if cs.any (fun c => match c with | .err => true | _ => false) then "= err"
+    else if cs.any (fun c => match c with | .open_ => true | _ => false) then "?"
+    else match StrLib.char (cs.filterMap fun c => match c with | .ok n => some n | _ => none) with
+      | some b => okStr b
+      | none => "= err"
+  | "rep" => match argStr (arg 0), argInt (arg 1), argOptStr (arg 2) [] with
+    | .ok s, .ok n, .ok sep =>
+      if n ≤ 0 then okStr []
+      else if s.length + sep.length == 0 then okStr []     -- Props.C19.len_rep: the result has length 0
+      else
+        let total := (s.length + sep.length) * n.toNat
+        if total ≤ 2 ^ 21 then okStr (StrLib.rep s n sep)
+        else if StrLib.repTooLarge s.length sep.length n then "= err | killed"
+        else if limited && total - sep.length > 2 ^ 26 then "= err | killed"   -- cannot fit in the memory limit of the context
+        else "?"
+    | .err, _, _ | _, .err, _ | _, _, .err => "= err"
+    | _, _, _ => "?"
+  | "find" => match argStr (arg 0), argStr (arg 1), argOptInt (arg 2) 1 with
+    | .ok s, .ok p, .ok init =>
+      if truthy (arg 3) || !hasSpecial p then
+        let render (r : Option (Int × Int)) : String := match r with
+          | some (x, y) => okVals ["i" ++ toString x, "i" ++ toString y]
+          | none => okVals ["n"]
+        let spec := (StrLib.findPlain s p init).map fun (x, y) => ((x : Int), (y : Int))
+        -- level B: Model.StrLib.goFindPlain mirrors the branch `plain || len(ptn) == 0` of matching.go
+        if truthy (arg 3) || p.isEmpty then
+          render spec ++ "\t~ " ++ render (Model.StrLib.goFindPlain s p (toI64 init))
+        else render spec
+      else "?"
+    | .err, _, _ | _, .err, _ | _, _, .err => "= err"
+    | _, _, _ => "?"
+  | _ => "?"
+
+/-! ### tables -/
+
+def parseMap (s : String) : Option Map :=
+  if s == "-" then some [] else
+  (s.splitOn ",").mapM fun kv =>
+    match kv.splitOn ":" with
+    | [k, v] => match k.toInt?, V.parse v with
+      | some k, some v => some (k, toVal v)
+      | _, _ => none
+    | _ => none
+
+def insertSorted (p : Int × Val) : Map → Map
+  | [] => [p]
+  | q :: r => if p.1 ≤ q.1 then p :: q :: r else q :: insertSorted p r
+
+def sortMap (m : Map) : Map := m.foldl (fun acc p => insertSorted p acc) []
+
+def showMap (m : Map) : String :=
+  if m.isEmpty then "-" else ",".intercalate ((sortMap m).map fun (k, v) => toString k ++ ":" ++ showVal v)
+
+def handlerOf : Char → Option Handler
+  | 'n' => some .none
+  | 'f' => some .back
+  | 't' => some .back
+  | 'e' => some .err
+  | _ => none
+
+inductive LenMode where
+  | raw | back | fixed (n : Int)
+
+structure TabIn where
+  tab : MTab
+  lenMode : LenMode
+
+/-- `<idx><nidx><len>/<own>/<back>`; `-` = no table -/
+def parseTab (s : String) : Option (Option TabIn) :=
+  if s == "-" then some none else
+  match s.splitOn "/" with
+  | [kind, own, back] =>
+    let cs := kind.toList
+    match cs with
+    | i :: n :: l =>
+      let lm : Option LenMode := match l with
+        | ['r'] => some .raw
+        | ['b'] => some .back
+        | _ => (String.ofList l).toInt?.map .fixed
+      match handlerOf i, handlerOf n, lm, parseMap own, parseMap back with
+      | some hi, some hn, some lm, some o, some b => some (some { tab := { own := o, back := b, idx := hi, nidx := hn }, lenMode := lm })
+      | _, _, _, _, _ => none
+    | _ => none
+  | _ => none
+
+def lenOK (t : TabIn) (n : Int) : Bool :=
+  match t.lenMode with
+  | .raw => t.tab.own.isBorder n
+  | .back => t.tab.back.isBorder n
+  | .fixed k => n == k
+
+def showTab (t : MTab) : String := showMap t.own ++ ";" ++ showMap t.back
+
+def errStr : Err → String
+  | _ => "= err"
+
+/-- widest range the oracle evaluates exactly -/
+def maxExact : Int := 4096
+
+def i64? (i : Int) : Bool := TabLib.minInt ≤ i && i ≤ TabLib.maxInt
+
+structure TCall where
+  fn : String
+  t1 : Option TabIn
+  t2 : Option TabIn
+  n1 : Int
+  n2 : Int
+  args : Array Arg
+
+def isTab1 : Option Arg → Bool
+  | some .t1 => true
+  | _ => false
+
+def tabFn (c : TCall) : String :=
+  let arg (i : Nat) : Option Arg := c.args[i]?
+  let argc := c.args.size
+  -- pack takes any values
+  if c.fn == "pack" then
+    let vs := c.args.toList.map fun a => match a with | .v x => toVal x | _ => Val.other 2
+    let p := TabLib.pack vs
+    let items : Map := (List.range vs.length).filterMap fun (i : Nat) =>
+      let v := p.get ((i : Int) + 1)
+      if v = .nil then none else some (((i : Int) + 1), v)
+    "= ok P ; " ++ (if items.isEmpty then "" else showMap items ++ ",") ++ "n:i" ++ toString p.n
+  else
+  -- every other function needs a table first
+  match arg 0, c.t1 with
+  | some .t1, some tin =>
+    if !lenOK tin c.n1 then "= badlen" else
+    let st := tin.tab
+    let n := c.n1
+    match c.fn with
+    | "insert" =>
+      if argc == 2 then
+        match arg 1 with
+        | some (.v x) => match TabLib.insert mstore st n none (toVal x) with
+          | .ok st' => "= ok ; " ++ showTab st'
+          | .error e => errStr e
+        | _ => "?"
+      else if argc == 3 then
+        match argInt (arg 1), arg 2 with
+        | .ok pos, some (.v x) =>
+          if !(TabLib.toU (pos - 1) < TabLib.toU (TabLib.wrap64 (n + 1))) then "= err" else
+          if TabLib.wrap64 (n + 1) - pos > maxExact then "?" else
+          match TabLib.insert mstore st n (some pos) (toVal x) with
+          | .ok st' => "= ok ; " ++ showTab st'
+          | .error e => errStr e
+        | .err, _ => "= err"
+        | _, _ => "?"
+      else "= err"      -- "wrong number of arguments to 'insert'"
+    | "remove" =>
+      let pos : Conv (Option Int) := match arg 1 with
+        | none => .ok none
+        | some (.v .nil) => .open_
+        | x => match argInt x with | .ok p => .ok (some p) | .err => .err | .open_ => .open_
+      match pos with
+      | .ok pos =>
+        if pos.getD n ≠ n ∧ ¬ (TabLib.toU (pos.getD n - 1) ≤ TabLib.toU n) then "= err" else
+        if n - pos.getD n > maxExact then "?" else
+        match TabLib.remove mstore st n pos with
+        | .ok (r, st') => "= ok " ++ showVal r ++ " ; " ++ showTab st'
+        | .error e => errStr e
+      | .err => "= err"
+      | .open_ => "?"
+    | "move" =>
+      match argInt (arg 1), argInt (arg 2), argInt (arg 3) with
+      | .ok f, .ok e, .ok t =>
+        let big := e - f > maxExact
+        match arg 4, c.t2 with
+        | none, _ | some .t1, _ =>
+          (match TabLib.movePlan f e t true with
+          | .error er =>
+            -- the errors for over-long ranges are ltablib.c's, not the manual's; for t = f on one table the
+            -- (infeasible) assignment a[f..e] = a[f..e] is also accepted as a no-op
+            if f == t then errStr er ++ " | ok T ; " ++ showTab st else errStr er
+          | .ok _ =>
+            if big then "?" else
+            match TabLib.move mstore st f e t with
+            | .ok st' => "= ok T ; " ++ showTab st'
+            | .error er => errStr er)
+        | some .t2, some uin =>
+          (match TabLib.movePlan f e t false with
+          | .error er => errStr er
+          | .ok _ =>
+            if big then "?" else
+            match TabLib.move2 mstore mstore st uin.tab f e t with
+            | .ok u' => "= ok U ; " ++ showTab st ++ " ; " ++ showTab u'
+            | .error er => errStr er)
+        | some (.v .nil), _ => "?"
+        | _, _ => "= err"
+      | .err, _, _ | _, .err, _ | _, _, .err => "= err"
+      | _, _, _ => "?"
+    | "concat" =>
+      match argOptStr (arg 1) [], argOptInt (arg 2) 1, argOptInt (arg 3) n with
+      | .ok sep, .ok i, .ok j =>
+        match TabLib.concat mstore st sep i j with
+        | .ok b => okStr b
+        | .error e => errStr e
+      | .err, _, _ | _, .err, _ | _, _, .err => "= err"
+      | _, _, _ => "?"
+    | "unpack" =>
+      let e : Conv Int := match arg 2 with
+        | none => .ok n
+        | some (.v .nil) => .ok n
+        | x => argInt x
+      match argOptInt (arg 1) 1, e with
+      | .ok i, .ok e =>
+        if i > e then okVals []
+        else if e - i ≥ TabLib.intMaxC then "= err"
+        else if e - i + 1 > maxExact then "?"
+        else match TabLib.unpack mstore st i e with
+          | .ok vs =>
+            let s := okVals (vs.map showVal)
+            -- the manual sets no bound on the number of results; between golua's bound and C Lua's both are accepted
+            if e - i + 1 > 256 then s ++ " | err" else s
+          | .error er => errStr er
+      | .err, _ | _, .err => "= err"
+      | _, _ => "?"
+    | _ => "?"
+  | some .t1, none => "bad-line"
+  | some (.v (.other _)), _ => "?"      -- some other table / function as first argument: not modelled
+  | some (.v (.str _)), _ => if c.fn == "unpack" then "?" else "= err"
+  | _, _ => "= err"     -- no table where one is required
+
+/-! ### sort: validate the observed final state against the relation -/
+
+def ltInt := TabLib.namedLt
+def provedSWO := TabLib.provedSWO
+
+def bytesLt : Bytes → Bytes → Bool
+  | [], [] => false
+  | [], _ :: _ => true
+  | _ :: _, [] => false
+  | a :: as, b :: bs => if a < b then true else if b < a then false else bytesLt as bs
+
+def allInts (l : List Val) : Option (List Int) := l.mapM fun v => match v with | .int i => some i | _ => none
+def allStrs (l : List Val) : Option (List Bytes) := l.mapM fun v => match v with | .str s => some s | _ => none
+
+def outside (m : Map) (n : Int) : Map := sortMap (m.filter fun p => p.1 < 1 || p.1 > n)
+
+def sortCheck (tin : TabIn) (n : Int) (cmp : Option String) (outcome : String) (own' back' : Map) : String :=
+  if !lenOK tin n then "! bad length-not-a-border" else
+  if n > 100000 then "?" else
+  let cnt := n.toNat
+  let st := tin.tab
+  let st' : MTab := { st with own := own', back := back' }
+  match TabLib.visible mstore st cnt with
+  | none => if cnt ≥ 2 && outcome != "err" then "! bad index-handler-error-swallowed" else "! ok"
+  | some before =>
+    match TabLib.visible mstore st' cnt with
+    | none => "! bad final-state-unreadable"
+    | some after =>
+      if !TabLib.isPerm after before then "! bad lost-or-invented-elements" else
+      if outside st'.own n != outside st.own n || outside st'.back n != outside st.back n then "! bad wrote-outside-1..n" else
+      if outcome != "ok" && outcome != "err" then "! bad outcome-" ++ outcome else
+      let mustOk (sorted : Bool) : String :=
+        if outcome != "ok" then "! bad error-with-consistent-comparison"
+        else if sorted then "! ok" else "! bad not-sorted"
+      let mustErr : String := if outcome == "err" then "! ok" else "! bad comparison-error-swallowed"
+      if st.nidx == .err && cnt ≥ 2 then
+        -- a read-only proxy: a sort that needs to move anything must fail; if nothing moved either outcome is fine
+        "! ok"
+      else
+      match cmp with
+      | none =>
+        if cnt < 2 then mustOk true else
+        match allInts after, allStrs after with
+        | some is, _ => mustOk (TabLib.isSortedAdj (fun a b => decide (a < b)) is)
+        | _, some ss => mustOk (TabLib.isSortedAdj bytesLt ss)
+        | none, none => mustErr
+      | some name =>
+        if cnt < 2 then mustOk true else
+        match allInts before, allInts after with
+        | some bi, some ai =>
+          match ltInt name with
+          | some lt =>
+            -- short lists: brute-force check of the strict-weak-order laws on the elements;
+            -- long lists: the comparisons proved to be strict weak orders on all integers (Props.C19.named_comparisons_swo)
+            let swo := if cnt ≤ 40 then TabLib.isSWOOn lt bi else provedSWO name
+            if swo then mustOk (TabLib.isSortedAdj lt ai)
+            else "! ok"     -- inconsistent comparison: any permutation, with or without "invalid order function"
+          | none =>
+            if name == "err1" then mustErr
+            else if name == "notfn" then mustErr
+            else "! ok"     -- random / late-erroring comparison: permutation only
+        | _, _ => "! ok"     -- the comparison is applied to non-integers (it may raise): permutation only
+
+/-! ### driver -/
+
+def splitAt (toks : List String) (sep : String) : List String × List String :=
+  (toks.takeWhile (· != sep), (toks.dropWhile (· != sep)).drop 1)
+
+def handle (line : String) : String :=
+  let toks := (line.splitOn " ").filter (· != "")
+  match toks with
+  | "S" :: fn :: rest =>
+    let (ins, _) := splitAt rest "="
+    match ins.mapM Arg.parse with
+    | some as => strFn false fn as.toArray
+    | none => "bad-line"
+  | "SL" :: fn :: rest =>
+    let (ins, _) := splitAt rest "="
+    match ins.mapM Arg.parse with
+    | some as => strFn true fn as.toArray
+    | none => "bad-line"
+  | "T" :: fn :: rest =>
+    let (ins, obs) := splitAt rest "="
+    -- leading table descriptors, then n=, m=, then args
+    let tabs := ins.takeWhile fun s => s.contains '/' || s == "-"
+    let rest := ins.drop tabs.length
+    let nTok := rest.filter (·.startsWith "n=")
+    let mTok := rest.filter (·.startsWith "m=")
+    let argToks := rest.filter fun s => !(s.startsWith "n=") && !(s.startsWith "m=")
+    let n1 := (nTok.head?.bind fun s => (s.drop 2).toString.toInt?).getD 0
+    let n2 := (mTok.head?.bind fun s => (s.drop 2).toString.toInt?).getD 0
+    match tabs.mapM parseTab, argToks.mapM fun s => (if s.startsWith "cmp:" then some (Arg.v .nil) else Arg.parse s) with
+    | some ts, some as =>
+      if fn == "sort" then
+        let cmp := (argToks.find? (·.startsWith "cmp:")).map fun s => (s.drop 4).toString
+        let (outc, dumps) := splitAt obs ";"
+        match ts.head?.join, outc.head?, dumps with
+        | some tin, some oc, d :: _ =>
+          match d.splitOn ";" with
+          | [o, b] => match parseMap o, parseMap b with
+            | some o, some b => sortCheck tin n1 cmp oc o b
+            | _, _ => "bad-line"
+          | _ => "bad-line"
+        | _, _, _ => "bad-line"
+      else
+        tabFn { fn := fn, t1 := ts.head?.join, t2 := (ts.drop 1).head?.join, n1 := n1, n2 := n2, args := as.toArray }
+    | _, _ => "bad-line"
+  | _ => "bad-line"
+
 def main (_args : List String) : IO UInt32 := do
-  IO.eprintln "oracle mode c19: not built"
-  return 2
+  let stdin ← IO.getStdin
+  let stdout ← IO.getStdout
+  forEachLine stdin fun line => stdout.putStrLn (handle line)
+  return 0
 
 end Oracle.C19
